@@ -70,6 +70,7 @@ type (
 
 type Scope struct {
 	vars   map[string]Value
+	ext    map[string]Value // names a host lookup object of this scope answers: read after vars, never assigned
 	parent *Scope
 }
 
@@ -78,6 +79,9 @@ func newScope(p *Scope) *Scope { return &Scope{parent: p} }
 func (s *Scope) lookup(n string) (Value, bool) {
 	for sc := s; sc != nil; sc = sc.parent {
 		if v, ok := sc.vars[n]; ok {
+			return v, true
+		}
+		if v, ok := sc.ext[n]; ok {
 			return v, true
 		}
 	}
@@ -227,6 +231,9 @@ func Run(prog []gen.Stmt, fl Flags) (out Outcome) {
 	}
 	// nm: the nil typed map the host hands in (reads of any key yield nil; never stored into or rendered)
 	global.define("nm", &Map{M: map[string]Value{}})
+	// xl: a name only the host's lookup object of the outermost scope answers (a script binding
+	// of xl anywhere is nearer; an assignment never reaches the lookup)
+	global.ext = map[string]Value{"xl": int64(99)}
 	top := newScope(global)
 	fr := &frame{}
 	r := in.block(prog, top, fr)
@@ -738,6 +745,9 @@ func (in *Interp) assignTo(t gen.Expr, v Value, sc *Scope, fr *frame) *ErrVal {
 			return nil
 		}
 		unspec("member store into %T", xv)
+	case *gen.Paren:
+		// a parenthesised place is the place
+		return in.assignTo(t.X, v, sc, fr)
 	}
 	unspec("assignment target %T", t)
 	return nil
@@ -1130,6 +1140,18 @@ func (in *Interp) prepareCall(c *gen.Call, sc *Scope, fr *frame) (fn Value, args
 		unspec("call of %T", fn)
 	}
 	m := len(c.Args)
+	if h, ok := fn.(*Host); ok && h.S.NilFunc {
+		// a nil function: the call fails; whether that is noticed before, between or after the
+		// operands is not stated - each operand at most once, in order
+		in.ev(OptBegin)
+		for _, a := range c.Args {
+			if _, e := in.expr(a, sc, fr); e != nil {
+				break
+			}
+		}
+		in.ev(OptEnd)
+		return nil, nil, nil, true
+	}
 	reject := func() (Value, []Value, *ErrVal, bool) {
 		// every argument at most once, in order: an optional prefix
 		in.ev(OptBegin)
